@@ -23,14 +23,17 @@ LEAN_MODULES = ["DaskModel.Props.C19"]
 TABLES = ["UfuncTable"]
 CASE_TIMEOUT_S = 20
 LEVEL_TEXT = ("Lean 4 theorems over a transliteration of broadcast_shapes, common_blockdim, unify_chunks and the block plan "
-              "of dask.array.core.elemwise: `commonBlockdim_refines` (the walking loop of common_blockdim terminates within "
+              "of dask.array.core.elemwise: `broadcastShapes_eq_np` (dask's broadcast_shapes — fill value -1, `dim = 0 if 0 in "
+              "sizes else max`, reject sizes outside [-1,0,1,dim] — accepts exactly the shape lists NumPy's right-aligned rule "
+              "accepts and returns the same shape, zero-length dimensions included; via `bdim_eq_npdim`), "
+              "`commonBlockdim_refines` (the walking loop of common_blockdim terminates within "
               "the supplied fuel and returns a chunking that refines every competing chunking and has the same total; "
               "`commonBlockdim_raises` when totals differ), `elemwise_alignment` (the reversed-range index strings "
               "right-align the arguments), `elemwise_axis_den`/`elemwise_den` (for every chunking, every broadcast-compatible "
               "size and every output position the element blockwise + NumPy-in-the-block read from an argument is the "
               "element NumPy's broadcasting reads: position i, or 0 along a size-1 axis), `ufunc_names_agree` over the ufunc "
-              "table extracted from dask/array/ufunc.py. VALIDATED, not proved: broadcast_shapes = NumPy's rule (model of "
-              "both rules diffed against dask and numpy.broadcast_shapes, exhaustively over small shapes), unify_chunks glue. "
+              "table extracted from dask/array/ufunc.py, `commonBlockdim_zero`. VALIDATED, not proved: that the Lean NumPy rule "
+              "is numpy.broadcast_shapes (diffed exhaustively over small shapes), the unify_chunks glue around common_blockdim. "
               "Element values, dtype promotion and the ufunc kernels are not in the theorems: they are compared with NumPy "
               "(values and dtype) on random programs and on the extracted ufunc table, incl. where=/out=.")
 LEVEL_NOTE = ("Trusted: Lean kernel + standard axioms; the model, tied by function-level differential tests "
